@@ -136,7 +136,9 @@ def _ops_alphabet(keys, n):
         ops.append({'op': 'pop_at', 'index': i})
     ops += [{'op': 'sort', 'reverse': True}, {'op': 'sort', 'key': 'const'}, {'op': 'sort', 'key': 'const', 'reverse': True},
             {'op': 'sort', 'key': 'last', 'reverse': True}, {'op': 'sort', 'key': 'len', 'reverse': True}, {'op': 'sort', 'key': None, 'reverse': False}]
-    ops += [{'op': 'reverse'}, {'op': 'sort'}, {'op': 'extend', 'items': [[keys[-1], 'e1'], [keys[0], 'e2']]}]
+    ops += [{'op': 'reverse'}, {'op': 'sort'}, {'op': 'extend', 'items': [[keys[-1], 'e1'], [keys[0], 'e2']]},
+            # one extend() argument naming the same key twice (a new one, a present one): each pair is stored in turn
+            {'op': 'extend', 'items': [['zz', 'n1'], ['zz', 'n2']]}, {'op': 'extend', 'items': [[keys[0], 'p1'], ['zz', 'n1'], [keys[0], 'p2'], ['zz', 'n3']]}]
     return ops
 
 
